@@ -42,6 +42,7 @@ type c10Exch struct {
 	complete bool // END_STREAM seen / the whole framed body was read
 	act      string
 	auth     bool
+	names    []string // header names in wire order (lower case; without authorization / x-ra / referer)
 }
 
 type c10Peer struct {
@@ -180,6 +181,9 @@ func (p *c10Peer) serveH2(conn net.Conn, connNo int) {
 			ex := &c10Exch{conn: connNo, first: onConn == 0, cl: "-", ra: "?"}
 			onConn++
 			for _, hf := range f.Fields {
+				if !strings.HasPrefix(hf.Name, ":") && hf.Name != "authorization" && hf.Name != "x-ra" && hf.Name != "referer" {
+					ex.names = append(ex.names, hf.Name)
+				}
 				switch hf.Name {
 				case ":method":
 					ex.method = hf.Value
@@ -229,14 +233,26 @@ func (p *c10Peer) serveH2(conn net.Conn, connNo int) {
 
 func (p *c10Peer) serveH1(conn net.Conn, connNo int) {
 	defer conn.Close()
-	br := bufio.NewReader(conn)
+	var raw bytes.Buffer // everything read from the connection: the header order is only visible in the raw bytes
+	br := bufio.NewReader(io.TeeReader(conn, &raw))
 	for first := true; ; first = false {
+		start := raw.Len() - br.Buffered()
 		rq, err := http.ReadRequest(br)
 		if err != nil {
 			return
 		}
 		ex := &c10Exch{conn: connNo, first: first, method: rq.Method, path: rq.URL.Path, cl: "-", ra: rq.Header.Get("X-Ra"),
 			auth: rq.Header.Get("Authorization") != ""}
+		if head := raw.Bytes()[start:]; true {
+			if i := bytes.Index(head, []byte("\r\n\r\n")); i >= 0 {
+				for _, ln := range strings.Split(string(head[:i]), "\r\n")[1:] {
+					n, _, _ := strings.Cut(ln, ":")
+					if n = strings.ToLower(n); n != "authorization" && n != "x-ra" && n != "referer" { // referer: added by http.Client to a redirect's follow-up
+						ex.names = append(ex.names, n)
+					}
+				}
+			}
+		}
 		if v := rq.Header.Get("Content-Length"); v != "" {
 			ex.cl = v
 		}
@@ -281,7 +297,8 @@ type c10InnerCase struct {
 	method string // POST PUT GET
 	idem   bool   // Idempotency-Key header
 	digest bool
-	kind   string // n(one) b(ytes) s(tring) u(ser GetBody func) m(arshal) f(orm) r(eader, unreplayable) c(ReadCloser, unreplayable)
+	order  []string // SetHeaderOrder keys (nil: none)
+	kind   string   // n(one) b(ytes) s(tring) u(ser GetBody func) m(arshal) f(orm) r(eader, unreplayable) c(ReadCloser, unreplayable)
 	size   int
 	script []string
 }
@@ -330,6 +347,9 @@ func c10InnerClient(tc *c10InnerCase) (*Client, *Request) {
 	}
 	if tc.idem {
 		rq.SetHeader("Idempotency-Key", "k1")
+	}
+	if tc.order != nil {
+		rq.SetHeader("X-A", "1").SetHeader("X-B", "2").SetHeader("X-C", "3").SetHeaderOrder(tc.order...)
 	}
 	pl := tc.payload()
 	switch tc.kind {
@@ -450,6 +470,24 @@ func TestVerif_C10_inner(t *testing.T) {
 				multi = true
 			}
 		}
+		// in EVERY exchange the header lines named in SetHeaderOrder go out in the caller's order
+		// (the lines not named there follow Go's map order, which nobody chose: C16)
+		for i, ex := range seen {
+			pos := -1
+			for _, k := range tc.order {
+				for j, n := range ex.names {
+					if n == strings.ToLower(k) {
+						if j < pos && ok {
+							ok, why = false, fmt.Sprintf("exchange %d: header %s is sent before its predecessor in SetHeaderOrder%v: %v", i, k, tc.order, ex.names)
+						}
+						pos = j
+					}
+				}
+			}
+		}
+		if tc.order != nil {
+			s.Count("header-order")
+		}
 		final := "Fpanic"
 		if !panicked {
 			switch {
@@ -532,6 +570,9 @@ func TestVerif_C10_inner(t *testing.T) {
 		tc := &c10InnerCase{h2: r.Intn(2) == 0, n: []int{-2, 0, 1, 2, 2}[r.Intn(5)], method: []string{"POST", "PUT", "GET", "POST"}[r.Intn(4)],
 			kind: kinds[r.Intn(len(kinds))], size: sizes[r.Intn(3)]}
 		tc.idem = r.Intn(3) == 0
+		if r.Intn(3) == 0 {
+			tc.order = [][]string{{"x-c", "x-a", "x-b"}, {"x-b", "content-type", "x-a"}, {"user-agent", "x-c", "x-ra", "x-b"}, {"X-A", "Content-Length", "X-C"}}[r.Intn(4)]
+		}
 		if (tc.kind == "r" || tc.kind == "c") && r.Intn(3) != 0 {
 			tc.n = []int{0, -2}[r.Intn(2)]
 		}
